@@ -157,7 +157,7 @@ class ndarray:
     @property
     def dtype(self):
         if builtins.all(isinstance(e, str) for e in self._f) and self._f:
-            return _np.dtype("<U8")
+            return _np.dtype(f"<U{self.sw}" if self.sw else "<U8")
         if builtins.all(isinstance(e, bool) for e in self._f) and self._f:
             return _np.dtype(bool)
         if builtins.all(isinstance(e, int) for e in self._f) and self._f:
@@ -171,6 +171,19 @@ class ndarray:
 
     def copy(self):
         return ndarray(self._f, self.shape, sw=self.sw)
+
+    def fill(self, value):
+        if isinstance(value, ndarray):
+            value = value.item()
+        for i in range(len(self._f)):
+            self._f[i] = self._coerce(value)
+
+    def __getattr__(self, name):
+        # a public numpy attribute / method that the stand-in does not model: the path is inconclusive, never an AttributeError
+        # that the code under test (or a harness) could mistake for a legitimate rejection
+        if name.startswith("_") or not hasattr(_np.ndarray, name):
+            raise AttributeError(name)
+        raise ShimUnsupported(f"ndarray.{name} is not modelled by the stand-in")
 
     def _allkind(self, pred):
         return bool(self._f) and builtins.all(pred(e) for e in self._f)
@@ -588,14 +601,18 @@ def array(x, dtype=None):
         return ndarray(flat, shape, sw=w)
     if builtins.any(isinstance(e, str) for e in flat):
         flat = [e if isinstance(e, str) else str(e) for e in flat]
-    elif builtins.any(_isfloatlike(e) for e in flat) or dtype is float:
+    elif builtins.any(_isfloatlike(e) for e in flat) or (dtype is not None and _is_float_dtype(dtype)):
         flat = [e if _is_sym(e) else (float(e) if e is not None else e) for e in flat]
     flat = [float(e) if type(e) is f64 else e for e in flat]
     return ndarray(flat, shape)
 
 
+def _is_float_dtype(t):
+    return t is float or t is _np.float64 or getattr(t, "_is_sym_float", False) or t in ("float", "float64", "f8", "d")
+
+
 def asarray(x, dtype=None):
-    if isinstance(x, ndarray) and dtype is None:
+    if isinstance(x, ndarray) and (dtype is None or (_is_float_dtype(dtype) and x._allkind(lambda e: _isfloatlike(e) and not isinstance(e, bool)))):
         return x   # numpy: no copy when the input already is an array of the requested type
     return array(x, dtype=dtype)
 
